@@ -100,14 +100,14 @@ theorem tie_reserve_runners :
 
 /-- **informer glue** (round 3): the statement / guard order the event model (`decodeUpdate`, `decodeDelete`, `Mgr.apply`)
     mirrors.  OnAdd / OnUpdate hand EVERY pod object (pair) to updatePod - the only statements before the call are the
-    type assertions with their `if !ok { return }` (a further guard, e.g. one that skips status-only updates, shows up
+    type assertions with their `if !ok { return }` and the changed-UID guard (code 12: deletePod(old); updatePod(nil, new)) (a further guard, e.g. one that skips status-only updates, shows up
     as code 9: updatePod is the only path that releases a pod whose phase turned Succeeded / Failed and that re-records a
     pod dropped while its node had no valid topology - `terminal_update_releases`, `topology_late_rerecorded`);
     updatePod: nodeName == "" (release the old pod's node, return) → terminated (deletePod, return) → the three parse
     errors → empty allocation → resourceManager.Update; deletePod: nodeName == "" → Release;
     resourceManager.Update: invalid topology (return) → getOrCreateNodeAllocation → NodeAllocation.update. -/
 theorem tie_event_glue :
-    C06.podOnAdd = [0, 1, 2] ∧ C06.podOnUpdate = [0, 1, 0, 1, 2] ∧ C06.podUpdatePod = [1, 2, 3, 3, 3, 4, 5] ∧
+    C06.podOnAdd = [0, 1, 2] ∧ C06.podOnUpdate = [0, 1, 0, 1, 12, 2] ∧ C06.podUpdatePod = [1, 2, 3, 3, 3, 4, 5] ∧
     C06.podDeletePod = [1, 6] ∧ C06.rmUpdateStmts = [7, 10, 11] := by decide
 
 /-- **get-or-create of a node's ledger object** (round 3).  `resourceManager.getOrCreateNodeAllocation` looks the node
